@@ -68,7 +68,7 @@ func etxI(t, v, gl, tip, fee string) Instr { return Instr{Op: "etx", T: t, V: v,
 
 func suicideData(ben string) string { return hex.EncodeToString(append([]byte("Suicide"), addrBytes(ben)...)) }
 
-func corpus() []*Case {
+func corpus(tier string) []*Case {
 	var cs []*Case
 	add := func(c *Case) { cs = append(cs, c) }
 	tx := func(note, to, value string, accts ...Acct) *Case {
@@ -227,6 +227,20 @@ func corpus() []*Case {
 		c = tx("nested CALL to another zone", contract(1), "0", ca(1, "1000", call(extQuai(1), "40"), call(extQuai(1), "2000"), call(qiThere(1), "1"), stop()))
 		add(c)
 	}
+	{
+		// 1024 nested frames, each moving 1 to itself, until EVM.Call answers ErrDepth
+		c := tx("self-recursion down to the call depth limit", contract(1), "0", ca(1, "50", call(contract(1), "1"), stop()))
+		c.Gas, c.Pool, c.Price = 5000000000000, 10000000000000, "1"
+		if tier != "thorough" {
+			// quick tier: the same program starved of gas some 150 frames down (the 1025-deep term is slow to parse)
+			c.Note, c.Gas, c.Pool = "self-recursion until the gas runs out", 30000000, 40000000
+		}
+		add(c)
+		init := []Instr{{Op: "return", N: 2}}
+		salt := grindSalt(hlib.NewRng(42), contract(1), assemble(init))
+		add(tx("CREATE2 twice with the same salt: the second collides", contract(1), "0",
+			ca(1, "50", Instr{Op: "create2", V: "3", Code: init, Salt: salt}, Instr{Op: "create2", V: "4", Code: init, Salt: salt}, stop())))
+	}
 	// refund counter
 	add(tx("SSTORE clears give a refund (capped at used/5)", contract(1), "0",
 		ca(1, "0", Instr{Op: "sstore", K: "1", X: "0"}, Instr{Op: "sstore", K: "2", X: "0"}, Instr{Op: "sstore", K: "3", X: "0"}, stop())))
@@ -354,6 +368,9 @@ func (g *gen) code(self int, depth int, isInit bool) []Instr {
 				in.In = []int{0, 20, 21, 25, 53, 60}[g.r.Intn(6)]
 			}
 			code = append(code, in)
+			if g.r.Chance(25) {
+				code = append(code, in) // the same callee again (a second SELFDESTRUCT of one account, repeated transfers)
+			}
 		case 1:
 			code = append(code, Instr{Op: "callcode", T: g.target(self), V: g.value(), G: g.gasArg()})
 		case 2:
